@@ -345,6 +345,76 @@ def polyhedra(sx):
         sx.check(False, "generator raised" + tag, detail=repr(e))
 
 
+def _generator_table():
+    import mouette.procedural as P
+    import numpy as np
+
+    def pts():
+        return [np.array(p, dtype=float) for p in [(0, 0, 0), (1, 0, 0), (1, 1, 0), (0, 1, 0), (0, 0, 1), (1, 0, 1), (1, 1, 1), (0, 1, 1)]]
+    return [
+        ("tetrahedron", lambda: P.tetrahedron(pts()[0], pts()[1], pts()[3], pts()[4])),
+        ("hexahedron", lambda: P.hexahedron(*pts())),
+        ("hexahedron_4pts", lambda: P.hexahedron_4pts(pts()[0], pts()[1], pts()[3], pts()[4])),
+        ("axis_aligned_cube", lambda: P.axis_aligned_cube()),
+        ("octahedron", lambda: P.octahedron()),
+        ("icosahedron", lambda: P.icosahedron()),
+        ("dodecahedron", lambda: P.dodecahedron()),
+        ("icosphere(1)", lambda: P.icosphere(1)),
+        ("sphere_uv(4,5)", lambda: P.sphere_uv(4, 5)),
+        ("torus(3,4)", lambda: P.torus(3, 4, 2., 0.5)),
+        ("cylinder(N=4)", lambda: P.cylinder(pts()[0], pts()[4], 1., N=4)),
+        ("unit_grid(2,3)", lambda: P.unit_grid(2, 3)),
+        ("unit_triangle(3,3)", lambda: P.unit_triangle(3, 3)),
+        ("triangle", lambda: P.triangle(pts()[0], pts()[1], pts()[3])),
+        ("quad", lambda: P.quad(pts()[0], pts()[1], pts()[3])),
+        ("ring(4)", lambda: P.ring(4, 0.5)),
+        ("flat_ring(4)", lambda: P.flat_ring(4, 0.5)),
+    ]
+
+
+N_GENERATORS = 17
+
+
+def repeated_calls(sx):
+    """every call of a generator hands out a mesh of its own: what the caller does with one result (moving vertices in place,
+    appending elements, attaching attributes) never shows in the result of a later call with the same arguments"""
+    import numpy as np
+    table = _generator_table()
+    assert len(table) == N_GENERATORS
+    name, gen = table[sx.choice("generator", N_GENERATORS)]
+    edit = ["move vertices in place", "reassign vertices", "append a face", "attach an attribute"][sx.choice("edit", 4)]
+    tag = " [%s, first result edited: %s]" % (name, edit)
+
+    def snap(m):
+        return ([tuple(float(x) for x in p) for p in m.vertices], [tuple(int(v) for v in f) for f in m.faces],
+                sorted(m.vertices.attributes), sorted(m.faces.attributes))
+    try:
+        first = gen()
+        s0 = snap(first)
+        if edit == "move vertices in place":
+            for i in range(len(first.vertices)):
+                first.vertices[i] *= 3.0
+                first.vertices[i] += 1.0
+        elif edit == "reassign vertices":
+            for i in range(len(first.vertices)):
+                first.vertices[i] = first.vertices[i] * 2.0 + np.array([5., 0., 0.])
+        elif edit == "append a face":
+            first.faces.append(tuple(first.faces[0]))
+            first.vertices.append(np.array([9., 9., 9.]))
+        else:
+            first.vertices.create_attribute("mark", float)[0] = 1.0
+            first.faces.create_attribute("mark", int)[0] = 1
+        second = gen()
+        s1 = snap(second)
+    except Exception as e:
+        sx.check(False, "generator raised when called twice" + tag, detail=repr(e))
+        return
+    sx.check(second is not first, "a second call returns a new mesh object" + tag)
+    sx.check(s1[1] == s0[1] and s1[2:] == s0[2:], "a second call with the same arguments gives the same faces and attributes" + tag)
+    ok = len(s1[0]) == len(s0[0]) and all(abs(a - b) <= 1e-12 for p, q in zip(s1[0], s0[0]) for a, b in zip(p, q))
+    sx.check(ok, "a second call with the same arguments gives the same vertices" + tag)
+
+
 def ico_sphere(n_refine):
     def h(sx):
         import mouette.procedural.shapes as S
@@ -731,6 +801,7 @@ def obligations(tier):
         Ob("sphere-uv-radius", sphere_uv_e1([3] if q else [3, 4]), covers=COVERS, split=3, note="sphere_uv with symbolic centre and radius"),
         Ob("cylinder", cylinder_e1([3, 4, 5] if q else [3, 4, 5, 6, 8]), covers=COVERS, split=3, note="cylinder, capped and open"),
         Ob("polyhedra", polyhedra, covers=COVERS, split=2, note="fixed polyhedra and switch forwarding"),
+        Ob("repeated-calls", repeated_calls, covers=COVERS, split=2, note="each generator called twice, the first result edited in between"),
         Ob("icosahedron", ico_sphere(0), covers=COVERS, note="icosahedron with symbolic centre/radius"),
         Ob("rings", rings_e1([3, 4, 5] if q else [3, 4, 5, 6, 7], [1, 2]), covers=COVERS, split=4, note="ring / open ring / flat_ring topology and rim"),
     ]
